@@ -279,8 +279,8 @@ ABORT_PERMILLE = [0, 1, 3, 10, 30, 60, 100, 150, 200, 250, 300, 350, 400, 450, 5
 
 
 def abort_scripts(ctx, R, classes, n_inject):
-    """Scripts for the harness 'script' mode.  One process per script (fresh hash table).  Every
-    script first generates completely (calibrates the duration), then injects stops."""
+    """Single-class scripts for the harness 'script' mode.  One process per script (fresh hash
+    table).  Every script first generates completely (calibrates the duration), then injects stops."""
     rng = ctx.rng
     scripts = []
     per = max(1, n_inject // max(1, len(classes)))
@@ -302,6 +302,39 @@ def abort_scripts(ctx, R, classes, n_inject):
     return scripts
 
 
+def rebuild_scripts(ctx, R, classes, phases_per_pair, n_pairs):
+    """Multi-class histories on ONE hash table (the generators share its table region):
+    A complete -> B aborted at several phases -> probes of A and B -> hash traffic -> probes ->
+    the next updateTB for A; and A complete -> B complete -> A again.  (The witness of
+    C12_abort_rebuild_refuted.)  Plus one own-memory (VectorStorage) history of the same shape."""
+    rng = ctx.rng
+    scripts = []
+    pairs = [(a, b) for a in classes for b in classes if a != b]
+    rng.shuffle(pairs)
+    pairs = pairs[:n_pairs]
+    bands = [(2, 60), (100, 450), (600, 950)]        # generation phase 1 / 2 / 3 (measured, see evidence)
+    for a, b in pairs:
+        ra, rb = R.dump_path(a, "tt"), R.dump_path(b, "tt")
+        ops = []
+        fr = [rng.randint(*bands[i % 3]) for i in range(phases_per_pair)]
+        for f in fr:
+            ops += [("U", a, -1), ("P", a, 997, ra),
+                    ("U", b, "p%d" % f), ("P", a, 97, ra), ("P", b, 97, rb),
+                    ("H", 150000), ("P", a, 97, ra), ("P", b, 97, rb),
+                    ("U", a, -1), ("P", a, 97, ra), ("C",)]
+        ops += [("U", a, -1), ("U", b, -1), ("P", a, 997, ra), ("P", b, 97, rb), ("H", 150000),
+                ("U", a, -1), ("P", a, 97, ra), ("P", b, 997, rb)]
+        scripts.append((a + ">" + b, ops))
+    if pairs:
+        a, b = pairs[0]
+        va, vb = R.dump_path(a, "vec"), R.dump_path(b, "vec")
+        ops = [("VG", a, -1), ("VP", a, 97, va), ("VG", b, -1), ("VP", a, 997, va), ("VP", b, 97, vb)]
+        for f in [rng.randint(*bands[i]) for i in range(3)]:
+            ops += [("VG", b, "p%d" % f), ("VP", a, 97, va), ("VP", b, 997, vb)]
+        scripts.append((a + ">" + b + "/vec", ops))
+    return scripts
+
+
 def run_script(R, script):
     cls, ops = script
     text = "\n".join(" ".join(str(x) for x in op) for op in ops) + "\n"
@@ -320,75 +353,124 @@ def parse_obs(line):
     return d
 
 
+def class_sig(cls):
+    """material of a class as the harness prints the installed generator: q.r.b.n.Q.R.B.N"""
+    w = {"Q": 0, "R": 0, "B": 0, "N": 0}
+    b = dict(w)
+    side = w
+    for i, ch in enumerate(cls):
+        if ch == "K":
+            if i > 0:
+                side = b
+            continue
+        side[ch] += 1
+    return ".".join(str(x) for x in [w["Q"], w["R"], w["B"], w["N"], b["Q"], b["R"], b["B"], b["N"]])
+
+
+VARIANTS = ("current", "fixed", "keepold")
+
+
 def judge_scripts(ctx, R, results):
-    """Compare the observations with both variants of coq/TB/Probe.v."""
-    verdict = {"current": True, "fixed": True, "aborted": 0, "completed": 0, "reads_after_abort": 0,
-               "wrong_after_abort": 0, "sweeps_after_abort": 0, "update_trusted_partial": 0, "injections": [], "broken": []}
+    """Compare the observations with the three variants of coq/TB/Probe.v, and - independently of
+    any model - every probe sweep with the certified dumps."""
+    verdict = {"current": True, "fixed": True, "keepold": True, "aborted": 0, "completed": 0,
+               "sweeps": 0, "sweeps_after_abort": 0, "wrong_sweeps": 0, "update_trusted_unsound": 0,
+               "rebuild_aborts": 0, "injections": [], "broken": [], "wrong": []}
     for res in results:
         if res["rc"] != 0 or len(res["lines"]) != len(res["ops"]):
             verdict["broken"].append({"script": res["ops"][:4], "rc": res["rc"], "err": res["err"], "lines": res["lines"][-3:]})
-            verdict["current"] = verdict["fixed"] = False
+            for v in VARIANTS:
+                verdict[v] = False
             continue
-        model_in = []
+        ids, sigs = {}, {}
+        for op in res["ops"]:
+            if op[0] in ("U", "P") and op[1] not in ids:
+                ids[op[1]] = len(ids)
+                sigs[class_sig(op[1])] = ids[op[1]]
         obs = [parse_obs(l) for l in res["lines"]]
-        keep = []
-        for op, o in zip(res["ops"], obs):
+        model_in, keep = [], []
+        for k, (op, o) in enumerate(zip(res["ops"], obs)):
             if op[0] == "U":
-                model_in.append("U 0 %s 1 %s" % (o["pre"], o["ret"]))
-                keep.append((op, o))
-            elif op[0] == "X":
-                model_in.append("X"); keep.append((op, o))
-            elif op[0] == "C":
-                model_in.append("C"); keep.append((op, o))
+                model_in.append("U %d %s 1 %s" % (ids[op[1]], o["pre"], "ok" if o["ret"] == "1" else "a1"))
+            elif op[0] in ("X", "C", "H"):
+                model_in.append(op[0])
             elif op[0] == "P":
-                model_in.append("P"); keep.append((op, o))
+                model_in.append("P %d" % ids[op[1]])
+            else:
+                continue
+            keep.append((k, op, o))
         rc, out, err = sh([R.ml, "probe"], input="\n".join(model_in) + "\n", timeout=120)
         preds = [l for l in out.split("\n") if l.strip()]
         if rc != 0 or len(preds) != len(keep):
-            verdict["broken"].append({"model": err[-800:]})
-            verdict["current"] = verdict["fixed"] = False
+            verdict["broken"].append({"model": err[-800:], "out": out[-300:]})
+            for v in VARIANTS:
+                verdict[v] = False
             continue
+        pred_at = {}
+        for (k, op, o), pl in zip(keep, preds):
+            pred_at[k] = [[int(x) for x in part.split()] for part in pl.split("|")]
         last_abort = None
-        for (op, o), pl in zip(keep, preds):
-            cur, fix = [[int(x) for x in part.split()] for part in pl.split("|")]
+        installed_before = None
+        for k, (op, o) in enumerate(zip(res["ops"], obs)):
             ctx.evaluated()
-            for name, m in (("current", cur), ("fixed", fix)):
-                ret, inst, rp = m
-                if op[0] == "P":
-                    # a probe sweep finds something iff a generator is installed (partial: unspecified)
-                    ok = (int(o["any"]) == ret) or rp == 1
-                elif op[0] == "C":
-                    ok = int(o["installed"]) == inst
-                else:
-                    ok = int(o["ret"]) == ret and int(o["installed"]) == inst
-                if not ok:
-                    if verdict[name]:
-                        verdict.setdefault("first_mismatch_" + name, {"op": op[:3], "observed": o, "model": m})
-                    verdict[name] = False
-            if op[0] == "U":
+            if k in pred_at:
+                gen_obs = sigs.get(o.get("gen", "-"), -1 if o.get("gen", "-") == "-" else -2)
+                for name, m in zip(VARIANTS, pred_at[k]):
+                    ret, gcls, bad = m
+                    if op[0] == "P":
+                        # unsound read: answers unspecified; another class installed: the classes may
+                        # share sub-material (captured men), so "some answers" is allowed either way
+                        ok = bad == 1 or (gcls != -1 and gcls != ids[op[1]]) or int(o["any"]) == ret
+                    elif op[0] == "C":
+                        ok = gen_obs == gcls
+                    elif op[0] == "H":
+                        ok = True
+                    else:
+                        ok = int(o["ret"]) == ret and gen_obs == gcls
+                    if not ok:
+                        if verdict[name]:
+                            verdict["first_mismatch_" + name] = {"script": res["cls"], "op_index": k, "op": list(op[:3]),
+                                                                 "observed": o, "model(ret,installed class,unsound)": m,
+                                                                 "history": [" ".join(str(x) for x in q[:3]) for q in res["ops"][:k + 1]]}
+                        verdict[name] = False
+            if op[0] in ("U", "VG"):
                 inj = op[2] != -1
                 if inj and o["ret"] == "0":
                     verdict["aborted"] += 1
-                    last_abort = {"class": op[1], "stop_after": op[2], "stop_after_us": int(o.get("stop_us", 0)),
-                                  "aborted_after_ms": o["ms"], "installed_after": o["installed"]}
+                    if op[0] == "U" and installed_before not in (None, "-"):
+                        verdict["rebuild_aborts"] += 1
+                    last_abort = {"script": res["cls"], "class": op[1], "stop_after": op[2], "stop_after_us": int(o.get("stop_us", 0)),
+                                  "aborted_after_ms": o["ms"], "installed_before": installed_before, "installed_after": o.get("gen", "n/a")}
                     verdict["injections"].append(last_abort)
-                elif inj and o["pre"] == "0":
+                elif inj and o.get("pre", "0") == "0":
                     verdict["completed"] += 1
-                if cur[2] == 1 and o["pre"] == "1" and o["ret"] == "1":
-                    verdict["update_trusted_partial"] += 1       # "tables available" without generating
-                    if last_abort is not None:
-                        last_abort["next_updateTB"] = "returned true without generating (probe of the partial table hit)"
-            elif op[0] == "P" and cur[2] == 1:
-                # by the Current model this sweep reads a partial table
-                verdict["sweeps_after_abort"] += 1
+                if op[0] == "U" and o["pre"] == "1" and o["ret"] == "1" and any(m[2] == 1 for m in pred_at[k]) and last_abort is not None:
+                    verdict["update_trusted_unsound"] += 1
+                    last_abort["next_updateTB"] = "returned true without generating (its probe of the installed table hit)"
+            if op[0] in ("U", "X", "C"):
+                installed_before = o.get("gen", "-")
+            if op[0] in ("P", "VP"):
+                verdict["sweeps"] += 1
                 if last_abort is not None:
-                    key = "probe%d" % (1 + sum(1 for k in last_abort if k.startswith("probe")))
-                    last_abort[key] = {"probed": int(o["probed"]), "found": int(o["found"]), "wrong": int(o["wrong"]), "first_wrong": o["first"]}
-                if int(o["found"]) > 0:
-                    verdict["reads_after_abort"] += 1
+                    verdict["sweeps_after_abort"] += 1
+                    key = "probe%d" % (1 + sum(1 for q in last_abort if q.startswith("probe")))
+                    last_abort[key] = {"class": op[1], "probed": int(o["probed"]), "found": int(o["found"]),
+                                       "wrong": int(o["wrong"]), "first_wrong": o["first"]}
                 if int(o["wrong"]) > 0:
-                    verdict["wrong_after_abort"] += 1
-            elif op[0] == "C":
+                    # model-independent: an answer that differs from the certified dump
+                    verdict["wrong_sweeps"] += 1
+                    idx, got, want = [int(x) for x in o["first"].split(":")]
+                    verdict["wrong"].append({
+                        "script": res["cls"], "probed_class": op[1], "back_end": "own memory" if op[0] == "VP" else "hash table",
+                        # self-contained: everything since the last clear() of this hash table
+                        "history": [" ".join(str(x) for x in q[:3]) for q in
+                                    res["ops"][max([0] + [i + 1 for i in range(k) if res["ops"][i][0] == "C"]):k + 1]],
+                        "observed": [l for l in res["lines"][:k + 1] if not l.startswith("H")][-8:],
+                        "sweep": {"probed": int(o["probed"]), "found": int(o["found"]), "wrong": int(o["wrong"])},
+                        "placement": describe(op[1], idx), "fen": fen_of(op[1], idx), "index": idx,
+                        "answered": raw_to_text(got), "certified": raw_to_text(want),
+                        "after_abort_of": (last_abort or {}).get("class")})
+            if op[0] == "C":
                 last_abort = None
     return verdict
 
@@ -400,7 +482,10 @@ def run(ctx):
                 "x {own memory, inside the hash table} in full; 4-man classes chosen by seed on random slices (quick) or in "
                 "full (thorough); non-trivial = legal position with at least one legal move (its label depends on children); "
                 "distinct by (class, back end, placement, side). Abort injections: stop requested after 0..98% of the measured "
-                "duration of a complete generation (so every phase is hit), followed by probes, hash traffic, probes, the next updateTB.")
+                "duration of a complete generation (so every phase is hit), followed by probes, hash traffic, probes, the next updateTB; "
+                "multi-class histories on one hash table: A complete, B aborted in phase 1/2/3, A and B probed, hash traffic, probed "
+                "again, updateTB(A); A complete, B complete, A again; the same shape with own-memory generators; every sweep compared "
+                "with the certified dumps and every return value / installed generator with the three variants of Probe.v.")
     ctx.trusted_base = ["Coq 8.16.1 kernel (coqc, vm_compute)",
                         "extraction: ExtrOcamlBasic + ExtrOcamlZInt (Z/N/positive -> OCaml int) + six Extract Constant "
                         "realisations in coq/Extract/ExtractDtm.v (Z.eqb Z.leb Z.ltb Z.div Z.modulo Z.even), for this driver only",
@@ -481,7 +566,9 @@ def _run(ctx, R, proof_broken, info):
     c4f = [pool.submit(R.check_range, j) for j in fj]
     # ---- abort scripts run meanwhile (they need the tt dumps of the 4-man classes as reference)
     abort_classes = [c for c in four if any(d["cls"] == c and d["backend"] == "tt" for d in okd4)][:2]
-    scripts = abort_scripts(ctx, R, abort_classes, ctx.scale(40, 200))
+    scripts = abort_scripts(ctx, R, abort_classes, ctx.scale(24, 160))
+    both = [c for c in four if all(any(d["cls"] == c and d["backend"] == be for d in okd4) for be in backends)]
+    scripts += rebuild_scripts(ctx, R, both, ctx.scale(3, 9), ctx.scale(2, 6))
     scf = [pool.submit(run_script, R, s) for s in scripts]
     # ---- ply / stats / scope
     okd = [d for d in d3 if d["rc"] == 0] + okd4
@@ -606,47 +693,49 @@ def _run(ctx, R, proof_broken, info):
     # ---- abort state machine
     v = judge_scripts(ctx, R, script_res)
     ctx.count("abort_injections_hit", v["aborted"])
+    ctx.count("abort_injections_into_a_rebuild_with_a_table_installed", v["rebuild_aborts"])
     ctx.count("abort_injections_generation_completed_first", v["completed"])
+    ctx.count("probe_sweeps_in_histories", v["sweeps"])
     ctx.count("probe_sweeps_after_abort", v["sweeps_after_abort"])
-    ctx.count("updateTB_calls_that_trusted_a_partial_table", v["update_trusted_partial"])
-    ctx.count("probe_sweeps_answering_after_abort", v["reads_after_abort"])
-    ctx.count("probe_sweeps_with_wrong_answers_after_abort", v["wrong_after_abort"])
+    ctx.count("probe_sweeps_with_wrong_answers", v["wrong_sweeps"])
+    ctx.count("updateTB_calls_that_trusted_an_unsound_table", v["update_trusted_unsound"])
     ctx.notes["abort_state"] = {"matches_model_Current": v["current"], "matches_model_Fixed": v["fixed"],
-                                "injections": v["injections"][:60]}
-    ctx.log("abort state machine: matches Current=%s Fixed=%s; %d aborts hit, %d sweeps answered from a partial table, %d with wrong answers"
-            % (v["current"], v["fixed"], v["aborted"], v["reads_after_abort"], v["wrong_after_abort"]))
+                                "matches_model_KeepOld": v["keepold"], "injections": v["injections"][:80]}
+    ctx.log("abort state machine: matches Fixed=%s Current=%s KeepOld=%s; %d aborts hit (%d into a rebuild), %d sweeps, %d with wrong answers"
+            % (v["fixed"], v["current"], v["keepold"], v["aborted"], v["rebuild_aborts"], v["sweeps"], v["wrong_sweeps"]))
+    which = ("Current" if v["current"] else "KeepOld" if v["keepold"] else None) if not v["fixed"] else "Fixed"
+    THEOREM = {"Current": "C12_abort_state_refuted (witness [OUpdate c; aborted] then OProbe c)",
+               "KeepOld": "C12_abort_rebuild_refuted (witness [OUpdate A ok; OUpdate B aborted; OProbe A])"}
+    KEYS = {"Current": KNOWN_KEY, "KeepOld": "updateTB-aborted-rebuild-keeps-previous-generator"}
     if v["broken"]:
         ctx.violation("abort-script harness/model run failed", {"broken": v["broken"][:3]}, no_failing_input=True)
-    elif v["aborted"] == 0:
-        ctx.violation("no injected stop hit a running generation: abort state machine not exercised",
-                      {"scripts": len(script_res)}, no_failing_input=True)
-    elif v["fixed"] and v["reads_after_abort"] == 0:
-        ctx.notes["abort_state"]["theorem"] = "C12_abort_state (model Fixed) applies: the code drops a failed generator"
-    elif v["current"]:
-        # the code is the Current variant: C12_abort_state_refuted's witness replayed on the real code
-        worst = None
-        for inj in v["injections"]:
-            for k in inj:
-                if k.startswith("probe") and (worst is None or inj[k]["wrong"] > worst[1]["wrong"]):
-                    worst = (inj, inj[k])
-        replay = {"theorem": "C12_abort_state_refuted (coq/TB/Probe.v, witness [OUpdate c false true false; OProbe])",
-                  "history": "updateTB(root) with stop requested during generate() -> returns false; then probeDTM",
-                  "observed": worst[0] if worst else None,
-                  "meaning_of_first_wrong": "dump index : score answered : certified answer (-32767 = not found, -32768 = n/a)",
-                  "aborts_hit": v["aborted"], "sweeps_answering_from_partial_table": v["reads_after_abort"],
-                  "sweeps_with_wrong_answers": v["wrong_after_abort"]}
-        if worst and worst[1]["wrong"] > 0:
-            idx = int(worst[1]["first_wrong"].split(":")[0])
-            replay["example"] = {"placement": describe(worst[0]["class"], idx), "fen": fen_of(worst[0]["class"], idx),
-                                 "answered": raw_to_text(int(worst[1]["first_wrong"].split(":")[1])),
-                                 "certified": raw_to_text(int(worst[1]["first_wrong"].split(":")[2]))}
-        ctx.violation("after an aborted generate() TranspositionTable::updateTB leaves the partly written generator installed "
-                      "and probeDTM answers from it (%d of %d probe sweeps after an abort answered, %d with wrong values)"
-                      % (v["reads_after_abort"], v["sweeps_after_abort"], v["wrong_after_abort"]), replay, key=KNOWN_KEY)
+    elif v["aborted"] == 0 or v["rebuild_aborts"] == 0:
+        ctx.violation("no injected stop hit a running generation / a rebuild: abort state machine not exercised",
+                      {"scripts": len(script_res), "aborted": v["aborted"], "rebuild_aborts": v["rebuild_aborts"]}, no_failing_input=True)
+    elif v["wrong"]:
+        # a concrete wrongly answered placement, whatever the model says
+        w = max(v["wrong"], key=lambda x: (x["after_abort_of"] is not None, x["sweep"]["wrong"]))
+        replay = dict(w)
+        replay["code_matches_model_variant"] = which
+        replay["refuted_theorem"] = THEOREM.get(which)
+        replay["first_mismatch_with_model_Fixed"] = v.get("first_mismatch_fixed")
+        replay["sweeps_with_wrong_answers"] = v["wrong_sweeps"]
+        ctx.violation("probeDTM answers %s positions out of bytes that are not the complete %s table: %s -> %s, certified %s "
+                      "(history: %s; %d of %d sampled answers wrong; abort state machine matches variant %s)"
+                      % (w["probed_class"], w["probed_class"], w["placement"], w["answered"], w["certified"],
+                         " ; ".join(w["history"][-6:]), w["sweep"]["wrong"], w["sweep"]["found"], which),
+                      replay, key=KEYS.get(which, "unsound-table-read/%s/%d" % (w["probed_class"], w["index"])))
+    elif v["fixed"]:
+        ctx.notes["abort_state"]["theorem"] = ("C12_abort_state (model Fixed) applies: after an aborted (re)build nothing is installed; "
+                                               "every probe sweep in every history agreed with the certified dumps")
+    elif which:
+        ctx.violation("TranspositionTable::updateTB behaves like the refuted variant %s of the abort state machine (%s) although no "
+                      "wrong answer was sampled" % (which, THEOREM[which]),
+                      {"first_mismatch_with_model_Fixed": v.get("first_mismatch_fixed")}, key=KEYS[which])
     else:
-        ctx.violation("TranspositionTable::updateTB matches neither variant of the abort state machine (coq/TB/Probe.v)",
-                      {"first_mismatch_current": v.get("first_mismatch_current"), "first_mismatch_fixed": v.get("first_mismatch_fixed")},
-                      no_failing_input=True)
+        ctx.violation("TranspositionTable::updateTB matches no variant of the abort state machine (coq/TB/Probe.v)",
+                      {"first_mismatch_fixed": v.get("first_mismatch_fixed"), "first_mismatch_current": v.get("first_mismatch_current"),
+                       "first_mismatch_keepold": v.get("first_mismatch_keepold")}, no_failing_input=True)
     ctx.notes["wall_breakdown_s"] = {"total_after_proof": round(time.time() - t_start, 1)}
 
 
@@ -664,11 +753,27 @@ def replay(ctx, body):
                 n, first = first_difference(R.dump_path(cls, be), ref)
                 print("differences engine vs MiniChess solver:", n, first)
         else:
-            cls = (r.get("observed") or {}).get("class", "KQKR")
-            d = R.dump((cls, "tt", 1))
-            us = (r.get("observed") or {}).get("stop_after_us", 1000)
-            res = run_script(R, (cls, [("U", cls, us), ("P", cls, 97, R.dump_path(cls, "tt")), ("U", cls, -1), ("P", cls, 97, R.dump_path(cls, "tt"))]))
+            hist = r.get("history") or ["U KQKR -1", "U KRKN p30", "P KQKR 97"]
+            classes = sorted({h.split()[1] for h in hist if h.split()[0] in ("U", "P", "VG", "VP")})
+            for c in classes:
+                for be in ("tt", "vec"):
+                    print("reference dump:", R.dump((c, be, 1)).get("rc"), c, be)
+            ops = []
+            for h in hist:
+                k = h.split()
+                if k[0] == "P":
+                    ops.append(("P", k[1], int(k[2]), R.dump_path(k[1], "tt")))
+                elif k[0] == "VP":
+                    ops.append(("VP", k[1], int(k[2]), R.dump_path(k[1], "vec")))
+                elif k[0] in ("U", "VG"):
+                    ops.append((k[0], k[1], k[2]))
+                elif k[0] == "H":
+                    ops.append(("H", int(k[1])))
+                else:
+                    ops.append((k[0],))
+            res = run_script(R, ("replay", ops))
             for op, line in zip(res["ops"], res["lines"]):
-                print(op[:3], "->", line)
+                print(" ".join(str(x) for x in op[:3]), "->", line)
+            print("(P/VP lines: first=<dump index>:<score answered>:<certified score>; wrong>0 = answers that differ from the certified dump)")
     finally:
         R.cleanup()
